@@ -221,8 +221,12 @@ func (l *Backoff) hasHitRateLimit(subnetIPStr string, count uint, ivl time.Durat
 		r = rVal.(*RequestCounter)
 	} else {
 		r = NewRequestCounter(count, ivl)
-		l.reqCounters.SetDefault(subnetIPStr, r)
 	}
+
+	// Set the counter even if it has been found to extend its lifetime, since
+	// the cache doesn't do that on reads, and the counter must not expire while
+	// the subnet is active.
+	l.reqCounters.SetDefault(subnetIPStr, r)
 
 	above := r.Add(time.Now())
 	if above {
